@@ -136,6 +136,8 @@ package seat_manager
 //@                ==> DIST(old(sm.dealer.ID), res.ID, sm.max) <= DIST(old(sm.dealer.ID), j, sm.max))
 //@   ensures [C17] old(CNT(sm, sm.max)) >= 2 && old(sm.dealer) == nil ==> res != nil && old(PLAYABLE(res))
 //@             && (forall j :: 0 <= j && j < res.ID ==> !old(PLAYABLE(sm.seats[j])))
+//@   -- a move that finds nobody keeps the button where it was
+//@   ensures [C17] res == nil ==> sm.dealer == old(sm.dealer)
 //@   assert findActivePlayer:1 len(seats) == ite(sm.dealer == nil, sm.max, sm.max - 1)
 //@   assert findActivePlayer:1 sm.dealer != nil ==> (forall j :: 0 <= j && j < sm.max && j != sm.dealer.ID ==> seats[DIST(sm.dealer.ID, j, sm.max) - 1] == sm.seats[j])
 //@   assert findActivePlayer:1 sm.dealer == nil ==> (forall j :: 0 <= j && j < sm.max ==> seats[j] == sm.seats[j])
@@ -245,7 +247,7 @@ package seat_manager
 
 //@ func (*SeatManager).join(sm, seatID, p) (res, err)
 //@   locked
-//@   props C18 C08
+//@   props C18 C08 C17
 //@   requires WFSM(sm) && 0 <= seatID && seatID < sm.max && p != nil
 //@   modifies sm.seats[seatID].IsReserved, sm.seats[seatID].Player
 //@   ensures old(sm.seats[seatID].Player) != nil ==> err == ErrNotAvailable && res == 0 - 1
@@ -254,7 +256,7 @@ package seat_manager
 
 //@ func (*SeatManager).leave(sm, seatID) (err)
 //@   locked
-//@   props C18 C08
+//@   props C18 C08 C17
 //@   requires WFSM(sm)
 //@   modifies Seat.IsReserved, Seat.Player
 //@   ensures [C18] !(0 <= seatID && seatID < sm.max) ==> err != nil && unchanged(Seat.IsReserved) && unchanged(Seat.Player)
@@ -278,7 +280,7 @@ package seat_manager
 
 //@ func (*SeatManager).Join(sm, seatID, p) (res, err)
 //@   locks
-//@   props C18 C08
+//@   props C18 C08 C17
 //@   requires WFSM(sm) && p != nil
 //@   modifies Seat.IsReserved, Seat.Player
 //@   allocs elems(int)
@@ -300,7 +302,7 @@ package seat_manager
 
 //@ func (*SeatManager).Leave(sm, seatID) (err)
 //@   locks
-//@   props C18 C08
+//@   props C18 C08 C17
 //@   requires WFSM(sm)
 //@   modifies Seat.IsReserved, Seat.Player
 //@   ensures WFSM(sm)
@@ -313,7 +315,7 @@ package seat_manager
 
 //@ func (*SeatManager).Seat(sm, seatID) (err)
 //@   locks
-//@   props C18 C08
+//@   props C18 C08 C17
 //@   requires WFSM(sm)
 //@   modifies Seat.IsReserved
 //@   ensures WFSM(sm)
@@ -323,7 +325,7 @@ package seat_manager
 
 //@ func (*SeatManager).Reserve(sm, seatID) (err)
 //@   locks
-//@   props C18 C08
+//@   props C18 C08 C17
 //@   requires WFSM(sm)
 //@   modifies Seat.IsReserved
 //@   ensures WFSM(sm)
